@@ -59,8 +59,8 @@ RULE = ('deterministic core: ALL permutations of the first-evaluation order of f
         'paths or in an order that is not the topological one.')
 ASSUMPTIONS = [
     'non-iterative mode; acyclic workbooks; formula language of the C01 correspondence (=ref, &, +, SUM, COUNT, INDEX)',
-    'range paths are evaluated inside the grid of cells that exist in the workbook (reading a blank cell beyond the '
-    'used area is exercised separately: finding usedarea.grows)',
+    'range paths are evaluated inside the grid of cells that exist in the workbook; single blank cells beyond the used '
+    'area are read too (30% of the random workbooks)',
     'the row edge (used area reaching row 1048576) is not executed on the real code (a million cells); the column '
     'edge (XFD) is',
     'nested lists of addresses are not generated (the code maps recursively; the model has flat lists)',
@@ -576,71 +576,13 @@ def _first_diff(a, b):
     return None
 
 
-def _reads_unbounded(case, node, seen=None):
-    """does evaluating `node` read a range that a formula spells as an unbounded address?"""
-    spell = case.get('spell') or {}
-    nodes = case['nodes']
-    stack, seen = [node], set()
-    while stack:
-        j = stack.pop()
-        if j in seen:
-            continue
-        seen.add(j)
-        n = nodes[j]
-        if n[0] == 'F':
-            deps = n[3][:1] if n[2] == 'idx' else n[3]
-            if any(str(d) in spell for d in deps):
-                return True
-            stack.extend(deps)
-        elif n[0] == 'R':
-            stack.extend(n[4])
-    return False
-
-
 def finding_key(case, impl_out, model_out):
+    """unbounded.maxedge: a whole-row address on a used area that reaches the last column (XFD) loses that column.
+    Only the clip family builds such a sheet; every other disagreement is a new violation."""
     if case.get('kind') == 'clip':
         c1, r1, c2, r2 = case['u']
-        box = clip(case['u'], case['mc'], case['mr'])
-        if box is None:
-            return None
-        # unbounded.maxedge: a whole-row address on a used area that reaches the last column (XFD) loses that column
-        if r1 != 0 and case['mc'] == MAX_COL:
+        if clip(case['u'], case['mc'], case['mr']) is not None and r1 != 0 and case['mc'] == MAX_COL:
             return 'unbounded.maxedge'
-        if (box[0], box[1]) == (box[2], box[3]):
-            return 'unbounded.single-cell'
-        return None
-    ref = model_out
-    k = _first_diff(impl_out, ref) if ref is not None else None
-    if k is None:
-        fails = _ORACLE.get(json.dumps(case, sort_keys=True)) or []
-        if not fails:
-            return None
-        k = fails[0][0]
-    op = case['ops'][k]
-    if op[0] == 'S':
-        return None
-    used = used_areas(case)
-    paths = [op[1]] if op[0] == 'E' else op[2]
-    earlier_absent = False
-    absent = set(case.get('absent') or ())
-    for o in case['ops'][:k]:
-        for p in ([o[1]] if o[0] == 'E' else o[2] if o[0] == 'M' else []):
-            if p[0] == 'c' and p[1] in absent:
-                earlier_absent = True
-            if p[0] == 'r' and set(case['nodes'][p[1]][4]) & absent:
-                earlier_absent = True
-    for p in paths:
-        if p[0] == 'u':
-            mc, mr = used.get(p[1], (1, 1))
-            box = clip(tuple(p[2:6]), mc, mr)
-            if p[6]:
-                return 'unbounded.sheetless'
-            if box is not None and (box[0], box[1]) == (box[2], box[3]):
-                return 'unbounded.single-cell'
-            if earlier_absent:
-                return 'usedarea.grows'
-        elif earlier_absent and p[0] in ('c', 'r') and _reads_unbounded(case, p[1]):
-            return 'usedarea.grows'
     return None
 
 
@@ -755,10 +697,10 @@ def readout(case_nodes, rng=None, max_rects=None):
     ops = [['E', ['c', i, 0]] for i in cells]
     ops += [['E', ['r', j, 0]] for rect, j in sorted(rmap.items(), key=lambda kv: kv[1])]
     for s, (mc, mr) in grids.items():
-        if mr > 1:
-            ops += [['E', ['u', s, c, 0, c, 0, 0]] for c in range(1, mc + 1)]
-        if mc > 1:
-            ops += [['E', ['u', s, 0, r, 0, r, 0]] for r in range(1, mr + 1)]
+        ops += [['E', ['u', s, c, 0, c, 0, 0]] for c in range(1, mc + 1)]
+        ops += [['E', ['u', s, 0, r, 0, r, 0]] for r in range(1, mr + 1)]
+        if s == 'Sheet1':
+            ops += [['E', ['u', s, 1, 0, 1, 0, 1]], ['E', ['u', s, 0, mr, 0, mr, 1]]]
         if mc > 1 and mr > 1:
             ops.append(['E', ['u', s, 1, 0, mc, 0, 0]])
             ops.append(['E', ['u', s, 0, 1, 0, mr, 0]])
@@ -772,15 +714,6 @@ def readout(case_nodes, rng=None, max_rects=None):
     ops.append(['M', 'l', []])
     ops += [['E', ['c', i, 0]] for i in cells]            # repeating evaluate returns the same value
     return ops
-
-
-def _is_single_cell_clip(case, op):
-    if op[0] != 'E' or op[1][0] != 'u':
-        return False
-    used = used_areas(case)
-    p = op[1]
-    box = clip(tuple(p[2:6]), *used.get(p[1], (1, 1)))
-    return box is not None and (box[0], box[1]) == (box[2], box[3])
 
 
 def perm_cases(tier, rng):
@@ -939,6 +872,13 @@ def gen_workbook(rng):
             nodes.append(['I', addr, _tok(v)])
         index[pos] = len(nodes) - 1
         placed.add(pos)
+    # formulas write a range that is a whole column / row of the used area as A:A / 1:1 (60%)
+    for (s, c1, r1, c2, r2), j in rng_index.items():
+        nc, nr = grids[s]
+        if (r1, r2) == (1, nr) and c1 == c2 and rng.random() < 0.6:
+            spell[str(j)] = f'{colname(c1)}:{colname(c1)}'
+        elif (c1, c2) == (1, nc) and r1 == r2 and rng.random() < 0.6:
+            spell[str(j)] = f'{r1}:{r1}'
     return nodes, spell
 
 
@@ -954,13 +894,14 @@ def rand_path(rng, nodes, grids, cells, ranges):
         return ['r', j, sl]
     s = rng.choice(list(grids))
     mc, mr = grids[s]
+    sl = 1 if s == 'Sheet1' and rng.random() < 0.2 else 0
     if rng.random() < 0.5:
         a = rng.randint(1, mc)
         b = rng.randint(a, mc + (1 if rng.random() < 0.2 else 0))
-        return ['u', s, a, 0, b, 0, 0]
+        return ['u', s, a, 0, b, 0, sl]
     a = rng.randint(1, mr)
     b = rng.randint(a, mr + (1 if rng.random() < 0.2 else 0))
-    return ['u', s, 0, a, 0, b, 0]
+    return ['u', s, 0, a, 0, b, sl]
 
 
 def _on_edge(n, grids):
@@ -979,9 +920,15 @@ def rand_cases(tier, rng):
             rects += [(s, c, 1, min(c2, mc), mr) for c in range(1, mc + 1) for c2 in range(c, mc + 1)]
             rects += [(s, 1, r, mc, min(r2, mr)) for r in range(1, mr + 1) for r2 in range(r, mr + 1)]
         add_ranges(nodes, rects)
+        absent = None
+        if rng.random() < 0.3:
+            # a blank cell beyond the used area, not written into the workbook (reading it must not move the used area)
+            mc, mr = grids['Sheet1']
+            nodes.append(['I', cell_addr('Sheet1', mc + rng.randint(0, 2), mr + rng.randint(1, 3)), 'z'])
+            absent = len(nodes) - 1
         cells = [i for i, n in enumerate(nodes) if n[0] != 'R']
         ranges = [i for i, n in enumerate(nodes) if n[0] == 'R']
-        inputs = [i for i in cells if nodes[i][0] == 'I']
+        inputs = [i for i in cells if nodes[i][0] == 'I' and i != absent]
         for cfg in (cfgs if tier == 'thorough' else [cfgs[k % 3]]):
             if cfg != 'nodata' and any(n[0] == 'I' and n[2] == 's:' for n in nodes):
                 # a saved file cannot hold an empty text: openpyxl reads it back as a blank cell
@@ -1007,12 +954,10 @@ def rand_cases(tier, rng):
             rng.shuffle(tail)
             ops += [['E', ['c', i, 0]] for i in tail]
             c = {'cfg': cfg, 'nodes': nodes, 'tag': 'rand', 'ops': ops}
-            # an unbounded address clipped to a single cell is the known class unbounded.single-cell: it is exercised
-            # by the corpus and the clip family; after it the real compiler is left half-built, so keep it out of here
-            if any(_is_single_cell_clip(c, op) for op in ops) or \
-                    any(op[0] == 'M' and any(_is_single_cell_clip(c, ['E', p]) for p in op[2]) for op in ops):
-                c['ops'] = [op for op in ops if not _is_single_cell_clip(c, op) and not (
-                    op[0] == 'M' and any(_is_single_cell_clip(c, ['E', p]) for p in op[2]))]
+            if spell:
+                c['spell'] = spell
+            if absent is not None:
+                c['absent'] = [absent]
             yield c
 
 
